@@ -29,7 +29,8 @@ def recheck():
     try:
         for c in checks:
             t0 = time.time()
-            rc, o = sh(f"cd /verif && ./vcheck {c} quick 2>&1 | grep -E 'VIOLATION|failure:|INCONCLUSIVE|quick:' | cut -c1-400 | head -12", timeout=7200)
+            rc, o = sh(f"cd /verif && ./vcheck {c} quick 2>&1 | grep -E 'VIOLATION|failure:|INCONCLUSIVE|quick:' | cut -c1-400", timeout=7200)
+            o = "\n".join(sorted(o.splitlines(), key=lambda l: 0 if "VIOLATION" in l else 1)[:40])
             meta["detection"][c] = {"quick_detects": "VIOLATION" in o, "wall_s": round(time.time() - t0, 1), "output": o.strip().splitlines()[:8]}
     finally:
         sh("git -C /repo checkout -- .")
@@ -83,7 +84,8 @@ def main():
         try:
             for c in checks:
                 t0 = time.time()
-                rc, o = sh(f"cd /verif && ./vcheck {c} quick 2>&1 | grep -E 'VIOLATION|failure:|INCONCLUSIVE|quick:' | cut -c1-400 | head -12", timeout=7200)
+                rc, o = sh(f"cd /verif && ./vcheck {c} quick 2>&1 | grep -E 'VIOLATION|failure:|INCONCLUSIVE|quick:' | cut -c1-400", timeout=7200)
+                o = "\n".join(sorted(o.splitlines(), key=lambda l: 0 if "VIOLATION" in l else 1)[:40])
                 viol = "VIOLATION" in o
                 meta["detection"][c] = {"quick_detects": viol, "wall_s": round(time.time() - t0, 1), "output": o.strip().splitlines()[:8]}
         finally:
